@@ -322,8 +322,44 @@ func ruleVarStd(c *Ctx) {
 					if _, fresh := fa.X.(*ssa.Alloc); fresh {
 						continue // constructor
 					}
+					// raw bytes appended in place of w.Write / w.Byte are not an encoder: a payload slice or string, or
+					// single bytes that are constants (or chosen among constants); the standard encoder called directly
+					// on the buffer is the standard encoder
+					plain := false
+					if call, isCall := st.Val.(*ssa.Call); isCall && innermostLoop(fn, b) == nil {
+						if isBuiltinCall(call, "append") && len(call.Call.Args) == 2 {
+							arg := call.Call.Args[1]
+							plain = true
+							if sl, isSl := arg.(*ssa.Slice); isSl {
+								if a, isA := sl.X.(*ssa.Alloc); isA {
+									if _, isArr := a.Type().Underlying().(*types.Pointer).Elem().Underlying().(*types.Array); isArr {
+										// append(buf, b0, ...): each element stored must be a constant or a phi of constants
+										for _, r := range referrersOf(a) {
+											ia, ok := r.(*ssa.IndexAddr)
+											if !ok {
+												continue
+											}
+											for _, r2 := range referrersOf(ia) {
+												if es, ok := r2.(*ssa.Store); ok && es.Addr == ssa.Value(ia) {
+													for _, src := range phiSources(es.Val) {
+														if _, isK := src.(*ssa.Const); !isK {
+															plain = false
+														}
+													}
+												}
+											}
+										}
+									}
+								}
+							}
+						}
+						if sc := call.Call.StaticCallee(); sc != nil && qualName(sc) == "encoding/binary.AppendVarint" {
+							plain = true
+						}
+					}
 					switch {
 					case isMethod && (name == "Varint" || name == "Byte" || name == "Write" || name == "Reset"):
+					case plain:
 					default:
 						c.Unk(fnKey(fn)+"/other-writer", P.pos(st.Pos()), "the write buffer is appended to outside WriteBuf.Varint/Byte/Write: a second encoder, whose varints are not known to be the standard library's shortest form of the 64-bit value")
 					}
